@@ -1234,9 +1234,116 @@ def declarations_and_decoded_stream(ctx, res):
             res.violate("C13:other-config-changed:copy", "a deep copy shares container objects with the original", dict(case, shared=shared))
 
 
+def application_state_stream(ctx, res):
+    """(a) an application FIELD that overrides `_validate` (and returns the list / dict it is given) and declares a mutable default: every
+    configuration — and every list item of a config type — gets its own copy; in-place edits through one show in no other, not in the
+    declared default, not in a configuration built later; (b) `reset_value` while the field's environment variable is SET (so the
+    variable decides for plain fields): container fields and fields with their own `__setdefault__` still get their own fresh
+    value — no configuration shares it, the declared default is untouched; (c) a deep copy of a configuration that keeps application
+    state of its own on the object (a cache a virtual field writes to, a list a config-type subclass keeps): the copy's state is the
+    copy's own"""
+    import os
+    import ext
+    import cincoconfig as cc
+    X = ext.ns()
+    # (a)
+    class TagsField(cc.Field):
+        storage_type = list
+
+        def _validate(self, cfg, value):
+            if not isinstance(value, (list, dict)):
+                raise ValueError("a container")
+            return value
+    job = cc.Schema()
+    job.options = TagsField(default={"retries": [1]})
+    Job = cc.make_type(job, "C13Job")
+    s = cc.Schema()
+    s.tags = TagsField(default=["net"])
+    s.sub.meta = TagsField(default={"k": ["v"]})
+    s.jobs = cc.ListField(Job, default=lambda: [{}, {}])
+    before = (list(s._fields["tags"].default), repr(s.sub._fields["meta"].default), repr(job._fields["options"].default))
+    case = {"stream": "application-state", "what": "custom-field-default"}
+    res.case("application-state:custom-field-default", kind="application-state")
+    try:
+        first, second = s(), s()
+        first.tags.append("experimental")
+        first.sub.meta["k"].append("w")
+        first.jobs[0].options["retries"].append(2)
+        later = s()
+        views = {"second.tags": second.tags, "later.tags": later.tags, "second.sub.meta": second.sub.meta, "later.sub.meta": later.sub.meta,
+                 "first.jobs[1].options": first.jobs[1].options, "second.jobs[0].options": second.jobs[0].options, "later.jobs[0].options": later.jobs[0].options}
+        want = {"second.tags": ["net"], "later.tags": ["net"], "second.sub.meta": {"k": ["v"]}, "later.sub.meta": {"k": ["v"]}, "first.jobs[1].options": {"retries": [1]},
+                "second.jobs[0].options": {"retries": [1]}, "later.jobs[0].options": {"retries": [1]}}
+        after = (list(s._fields["tags"].default), repr(s.sub._fields["meta"].default), repr(job._fields["options"].default))
+    except Exception as e:  # noqa
+        views, want, after = "raised %s" % type(e).__name__, None, before
+    if views != want or after != before:
+        res.violate("C13:other-config-changed:custom-field-default", "the mutable default of an application field that overrides _validate is shared: an in-place edit through one "
+                    "configuration shows in another one / in the declared default", dict(case, seen={k: v for k, v in views.items() if v != want[k]} if isinstance(views, dict) else views,
+                                                                                           declared_default_changed=after != before))
+    # (b)
+    t = cc.Schema(env="CINCO_T_C13R")
+    t.a.b.hosts = cc.ListField(cc.StringField(), default=["localhost"])
+    t.a.b.registry = TagsField(default={"seen": ["declared"]})
+    t.a.b.stamp = X["StampField"]()
+    t.a.b.name = cc.StringField(default="n")
+    for var in ("CINCO_T_C13R_A_B_HOSTS", "CINCO_T_C13R_A_B_STAMP", "CINCO_T_C13R_A_B_NAME"):
+        os.environ[var] = "from-env"                  # (the registry field's own validation refuses a text: its variable stays unset)
+    case = {"stream": "application-state", "what": "reset-under-variable"}
+    res.case("application-state:reset-under-variable", kind="application-state")
+    try:
+        first, second = t(), t()
+        for c in (first, second):
+            for key in ("a.b.hosts", "a.b.registry", "a.b.stamp"):
+                cc.reset_value(c, key)
+        first.a.b.hosts.append("rogue-host")
+        first.a.b.registry["seen"].append("first")
+        same_stamp = first.a.b.stamp == second.a.b.stamp
+        seen = {"second.hosts": list(second.a.b.hosts), "second.registry": second.a.b.registry, "declared.hosts": list(t.a.b._fields["hosts"].default),
+                "declared.registry": t.a.b._fields["registry"].default}
+    except Exception as e:  # noqa
+        seen, same_stamp = "raised %s: %s" % (type(e).__name__, str(e)[:60]), False
+    finally:
+        for var in ("CINCO_T_C13R_A_B_HOSTS", "CINCO_T_C13R_A_B_REGISTRY", "CINCO_T_C13R_A_B_STAMP", "CINCO_T_C13R_A_B_NAME"):
+            os.environ.pop(var, None)
+    if seen != {"second.hosts": ["localhost"], "second.registry": {"seen": ["declared"]}, "declared.hosts": ["localhost"], "declared.registry": {"seen": ["declared"]}} or same_stamp:
+        res.violate("C13:other-config-changed:reset-under-variable", "after reset_value (the field's environment variable being set) two configurations share a value, or the declared "
+                    "default was changed by an in-place edit", dict(case, seen=repr(seen)[:300], same_stamp=same_stamp))
+    # (c)
+    u = cc.Schema()
+    u.colour = cc.StringField(default="red")
+    u.overrides = cc.VirtualField(lambda c: dict(vars(c).setdefault("_overrides", {})), setter=lambda c, v: vars(c).setdefault("_overrides", {}).update(v))
+    hist = cc.Schema()
+    hist.name = cc.StringField(default="j")
+    HBase = cc.make_type(hist, "C13Hist")
+
+    class Recorded(HBase):
+        def __init__(self, *a, **kw):
+            super().__init__(*a, **kw)
+            object.__setattr__(self, "history", ["created"])
+
+        def record(self, what):
+            self.history.append(what)
+    u.jobs = cc.ListField(Recorded, default=lambda: [])
+    case = {"stream": "application-state", "what": "deep-copy"}
+    res.case("application-state:deep-copy", kind="application-state")
+    try:
+        orig = u()
+        orig.overrides = {"colour": "blue"}
+        orig.jobs = [Recorded(name="a")]
+        dup = copy.deepcopy(orig)
+        dup.overrides = {"size": 9}
+        dup.jobs[0].record("started")
+        got = (orig.overrides, orig.jobs[0].history, dup.overrides, dup.jobs[0].history)
+    except Exception as e:  # noqa
+        got = "raised %s: %s" % (type(e).__name__, str(e)[:60])
+    if got != ({"colour": "blue"}, ["created"], {"colour": "blue", "size": 9}, ["created", "started"]):
+        res.violate("C13:other-config-changed:copy", "a deep copy of a configuration shares application state kept on the configuration object with the original", dict(case, got=repr(got)[:300]))
+
 def run(ctx, n_quick=250, n_thorough=8000):
     import extract
     res = Result()
+    guard(res, "C13", application_state_stream, ctx, res)
     try:
         table = extract.default_disciplines(ctx.repo)
     except Exception:  # noqa  (unreadable source: reported by main as a translator failure; the model takes the reading the theorems assume)
